@@ -83,6 +83,7 @@ func zzC16_limits() {
 		m := pool.NewMessage(ctx)
 		m.SetToken(message.Token{byte(i)})
 		_ = m.SetPath(paths[r.path])
+		zzDecorate(m, i)
 		keys[i] = hash(m.Options())
 		before := zzQueued(l, keys[i])
 		wg.Add(1)
@@ -215,4 +216,18 @@ func zzC16_selftest() {
 	_ = m.SetPath("/a")
 	_, err := l.Do(m)
 	symAssert(err != nil, "selftest: must fail")
+}
+
+// requests to one path differ in their other options (a conditional GET, a deregistration, another host): the
+// per-endpoint limit is keyed by the target path alone
+func zzDecorate(m *pool.Message, i int) {
+	switch i % 4 {
+	case 1:
+		_ = m.SetETag([]byte{0x01})
+	case 2:
+		m.SetObserve(1)
+	case 3:
+		m.SetOptionBytes(message.IfMatch, []byte{0x02})
+		m.SetOptionString(message.URIHost, "h")
+	}
 }
